@@ -29,7 +29,9 @@ RULE = (
     '| N | N,M | default and --wait, and real stop/restart steps (stop --now '
     'or clean, jobs optionally carrying on while down; one main-loop '
     'iteration follows every restart before the next command); half of the '
-    'cases end with "settle, restart, trigger --flow=new"; then a fair '
+    'cases end with "settle, restart, trigger --flow=new", a quarter with '
+    '"settle, trigger X --flow=new, settle, trigger X --flow=1, settle" for '
+    'one model instance X; then a fair '
     'drain.  '
     'Oracle (trace only, expectations from the harness AST): (a) after every '
     'spawn_on_output call of a parent with flows P (not flow-waiting): each '
@@ -92,6 +94,15 @@ def cases(draw):
                   ['restart', draw(st.integers(0, 5))],
                   ['trigger', draw(st.integers(0, 23)), ['new'], False],
                   ['settle', draw(st.integers(1, 4))]]
+    elif draw(st.booleans()):
+        # a finished instance is re-run in a new (unmerged) flow, then its
+        # original flow is sent through the same place again
+        x = 2 * draw(st.integers(0, 11)) + 1      # odd: a model instance
+        sched += [['settle', draw(st.integers(2, 8))],
+                  ['trigger', x, ['new'], False],
+                  ['settle', draw(st.integers(2, 8))],
+                  ['trigger', x, ['1'], False],
+                  ['settle', draw(st.integers(2, 8))]]
     return {'spec': spec, 'outcomes': outcomes, 'schedule': sched}
 
 
